@@ -1,6 +1,76 @@
-//! Kani harnesses for nomt/src/beatree/ops/overflow.rs (compiled into the real crate only under cfg(kani)).
+//! K2/K5 (overflow): sizing contract twin of Verus unit v5 and the overflow cell codec.
 #![allow(unused_imports, dead_code)]
 use super::*;
+
+fn load(v: usize, p: usize) -> usize {
+    v + 4 * p.saturating_sub(MAX_OVERFLOW_CELL_NODE_POINTERS)
+}
+
+/// total_needed_pages against the page-format contract, for every value size 1..=2^29.
+/// Loop-free over the full domain: complete.
+#[kani::proof]
+fn total_needed_pages_contract() {
+    let v: usize = kani::any();
+    kani::assume(v >= 1 && v <= MAX_OVERFLOW_VALUE_SIZE);
+    let p = total_needed_pages(v);
+    assert!(p >= 1);
+    assert!(p * BODY_SIZE >= load(v, p));
+    assert!((p - 1) * BODY_SIZE < load(v, p));
+    kani::cover!(p > MAX_OVERFLOW_CELL_NODE_POINTERS + 1, "values needing in-page pointers reachable");
+}
+
+/// decode_cell(encode_cell(size, hash, pages)) == (size, hash, pages) for a concrete number n of
+/// page numbers (one harness per n in 1..=15 = MAX_OVERFLOW_CELL_NODE_POINTERS, the format's bound).
+fn cell_roundtrip(n: usize) {
+    let size: usize = kani::any();
+    kani::assume(size <= MAX_OVERFLOW_VALUE_SIZE);
+    let hash: [u8; 32] = kani::any();
+    let pns: [u32; 15] = kani::any();
+    let mut pages = Vec::with_capacity(n);
+    let mut i = 0;
+    while i < n {
+        pages.push(PageNumber(pns[i]));
+        i += 1;
+    }
+    let cell = encode_cell(size, hash, &pages);
+    assert!(cell.len() == 8 + 32 + 4 * n);
+    let (s2, h2, it) = decode_cell(&cell);
+    assert!(s2 == size);
+    assert!(h2 == hash);
+    let mut k = 0;
+    for pn in it {
+        assert!(k < n);
+        assert!(pn.0 == pns[k]);
+        k += 1;
+    }
+    assert!(k == n);
+    kani::cover!(k == n, "reachable");
+}
+
+macro_rules! cell_harness {
+    ($name:ident, $n:expr) => {
+        #[kani::proof]
+        #[kani::unwind(17)]
+        fn $name() {
+            cell_roundtrip($n);
+        }
+    };
+}
+cell_harness!(overflow_cell_roundtrip_1, 1);
+cell_harness!(overflow_cell_roundtrip_2, 2);
+cell_harness!(overflow_cell_roundtrip_3, 3);
+cell_harness!(overflow_cell_roundtrip_4, 4);
+cell_harness!(overflow_cell_roundtrip_5, 5);
+cell_harness!(overflow_cell_roundtrip_6, 6);
+cell_harness!(overflow_cell_roundtrip_7, 7);
+cell_harness!(overflow_cell_roundtrip_8, 8);
+cell_harness!(overflow_cell_roundtrip_9, 9);
+cell_harness!(overflow_cell_roundtrip_10, 10);
+cell_harness!(overflow_cell_roundtrip_11, 11);
+cell_harness!(overflow_cell_roundtrip_12, 12);
+cell_harness!(overflow_cell_roundtrip_13, 13);
+cell_harness!(overflow_cell_roundtrip_14, 14);
+cell_harness!(overflow_cell_roundtrip_15, 15);
 
 #[cfg(test)]
 include!("/verif/.build/playback/overflow.inc");
